@@ -14,5 +14,17 @@ for d in /verif/seeded/*/; do
   t1=$(date +%s)
   nv=$(grep -c '^VIOLATION' $out/$id.log); first=$(grep -A1 '^VIOLATION' $out/$id.log | sed -n 2p | cut -c1-120)
   echo "$id $prop: exit=$rc violations=$nv time=$((t1-t0))s $first"
+  printf '%s\t%s\t%s\t%s\t%s\t%s\n' "$id" "$prop" "$rc" "$nv" "$((t1-t0))" "$first" >> $out/matrix.tsv
 done
 git -C /repo worktree remove --force $wt
+# merge into the kept table (one row per seed, latest run wins)
+python3 - $out/matrix.tsv /verif/seeded/MATRIX.tsv <<'PY'
+import sys,os
+rows={}
+for f in (sys.argv[2],sys.argv[1]):
+    if os.path.exists(f):
+        for l in open(f):
+            c=l.rstrip('\n').split('\t')
+            if len(c)>=6: rows[c[0]]=c
+open(sys.argv[2],'w').write(''.join('\t'.join(rows[k])+'\n' for k in sorted(rows)))
+PY
